@@ -279,12 +279,14 @@ def gen_history(d, cfg, *, sides=(0, 1), n_ops=(3, 8), hazards=None, with_base=N
     return acts, world
 
 
-def envelope_ok(trace, hazards=None, sides=(0, 1)):
+def envelope_ok(trace, hazards=None, sides=(0, 1), world_init=None):
     """True iff every user op of the trace is model-valid and hazard-free (used to keep ddmin inside the
     generated domain, so that a shrunk trace is still a member of the domain the check claims)."""
     from .model import ModelInvalid
     cfg = trace["cfg"]
     world = World(path_style=(cfg.get("L") == "path", cfg.get("R") == "path"), hazards=hazards)
+    if world_init:
+        world_init(world)
     for a in trace["acts"]:
         if a[0] == "u":
             if a[1] not in sides:
